@@ -81,7 +81,7 @@ CHECKS['C17'] = dict(
 CHECKS['C20'] = dict(
     category='other', design_ref='DESIGN.md section 4 (R-PROFILE, R-CONFIG-DIFF, R-UNSAFE), section 5 C20',
     technique='inventory of profile-dependent check sites on MIR extracted with overflow checks and debug assertions ON + ' + ABSINT + ' deciding for each reached site whether its failure edge is feasible; MIR equality between feature configurations; who-may-call rule for unsafe',
-    text='CLAUSE decided: the operations of C01-C06, C08-C10, C14-C16 (arithmetic, comparison, rounding, integer conversion, unary, wide helpers and unsigned kernels incl. Knuth-D, gcd / ratio / hash, parsing). Every overflow assert, every call of an inherit-overflow-checks core function (<i128 as Add>::add, abs, pow, ...) and every debug_assert reached by the ~4 500 (quick) / ~24 000 (thorough) cells of those properties has an infeasible failure edge in every cell, hence the release build - which omits the check - computes the same result; a feasible edge would be reported as "panics in dev, wraps in release". Function bodies are identical MIR with and without feature packed; unsafe operations are confined to the audited parser helpers. NOT decided: the 68 sites in float conversion, formatting and unused doc(hidden) helpers (listed as assumptions in the evidence).',
+    text='CLAUSE decided: the operations of C01-C11, C14-C16 (arithmetic, comparison, rounding, integer conversion, unary, wide helpers and unsigned kernels incl. Knuth-D, gcd / ratio / hash, parsing, formatting). Every overflow assert, every call of an inherit-overflow-checks core function (<i128 as Add>::add, abs, pow, ...) and every debug_assert reached by the ~4 500 (quick) / ~24 000 (thorough) cells of those properties has an infeasible failure edge in every cell, hence the release build - which omits the check - computes the same result; a feasible edge would be reported as "panics in dev, wraps in release". Function bodies are identical MIR with and without feature packed; unsafe operations are confined to the audited parser helpers. NOT decided: the 58 sites in the float conversions (C12, C13) and in unused doc(hidden) helpers (listed as assumptions in the evidence).',
     note='Trusted: rustc (absent UB the optimisation level does not change results); ' + TB + 'The 98 silent-wrap sites found by this check are repaired by a fix: commit.')
 
 CHECKS['C09'] = dict(
